@@ -487,3 +487,25 @@ package profile
 //@       l1.Line[i].Line == l2.Line[i].Line && l1.Line[i].Column == l2.Line[i].Column
 //@       && ((l1.Line[i].Function == nil) <==> (l2.Line[i].Function == nil))
 //@       && (l1.Line[i].Function != nil ==> l1.Line[i].Function.ID == l2.Line[i].Function.ID)
+
+// ---- C07: scaling ----
+
+//@ spec func samplesok(p *Profile) bool = p != nil && forall i int :: 0 <= i && i < len(p.Sample) ==> p.Sample[i] != nil && len(p.Sample[i].Value) == len(p.SampleType)
+// ScaleN: error exactly on a length mismatch; ratios all 1 change nothing; a sample is kept exactly
+// when one of its resulting values is non-zero (values are scaled, never dropped), no index out of range.
+//@ func Profile.ScaleN arith bv
+//@   requires samplesok(p)
+//@   ensures err: result != nil <==> len(p.SampleType) != len(ratios)
+//@   ensures mismatch_noop: result != nil ==> len(p.Sample) == old(len(p.Sample))
+//@   ensures allones_noop: (forall i int :: 0 <= i && i < len(ratios) ==> ratios[i] == 1.0) ==> len(p.Sample) == old(len(p.Sample))
+//@   ensures shrink: len(p.Sample) <= old(len(p.Sample))
+//@   loop 1
+//@     invariant 0 <= $i && $i <= len(ratios)
+//@     invariant allOnes ==> forall j int :: 0 <= j && j < $i ==> ratios[j] == 1.0
+//@   loop 2
+//@     invariant 0 <= $i && $i <= len(p.Sample) && 0 <= fillIdx && fillIdx <= $i
+//@     invariant len(p.Sample) == old(len(p.Sample)) && len(p.SampleType) == len(ratios)
+//@     invariant forall k int :: $i <= k && k < len(p.Sample) ==> p.Sample[k] != nil && len(p.Sample[k].Value) == len(p.SampleType)
+//@   loop 3
+//@     invariant 0 <= $i && $i <= len(s.Value) && len(s.Value) == len(ratios)
+//@     invariant keep: keepSample <==> exists j int :: 0 <= j && j < $i && s.Value[j] != 0
